@@ -17,7 +17,7 @@ import ast
 from fractions import Fraction
 
 from ..affine import Lin, lin
-from ..facts import abs_range, atoms, call_is, digest_parts, equality_atoms, index_of, meth_is, slice_bounds, strip
+from ..facts import abs_range, alternatives, atoms, call_is, cases, digest_parts, simplify, equality_atoms, index_of, meth_is, slice_bounds, strip
 from ..intervals import ceval, iv_of
 from ..model import AnalysisError
 from ..seq import Byte, Const, Digest, Field, Layouts, Opaque, flatten, show_layout, total
@@ -263,10 +263,29 @@ def run(ctx):
         ctx.count("raises")
         ctx.ob("C05.e", PROC, prog.exc_is(exc, PROTO), f"_process_packet rejection raises {exc.split('.')[-1]}", func=PROC, file=file, node=node2,
                fail=f"_process_packet raises {exc}: not a protocol error")
-    for pc2, ret, node2, _st in ps.returns:
-        if node2 is None:
-            continue
-        facts = atoms(pc2)
+    def dispatch_cases():
+        """(facts, returned term, node) for every return of _process_packet, one per case of its path condition with the gates of
+        the returned value that the case settles resolved (a dispatch table / conditional expression returns a gated value)."""
+        out = []
+        for pc2, ret, node2, _st in ps.returns:
+            if node2 is None:
+                continue
+            for case in cases(pc2):
+                r = strip(simplify(ret, case))
+                # remaining gates that only test the packet type: one sub-case per alternative
+                todo = [(list(case), r)]
+                while todo:
+                    fs, rr = todo.pop()
+                    if rr[0] == "ite":
+                        for truth in (True, False):
+                            for alt in alternatives(rr[1], truth):
+                                fs2 = fs + [a for a in alt if a not in fs]
+                                todo.append((fs2, strip(simplify(rr[2] if truth else rr[3], fs2))))
+                    elif rr[0] != "top":
+                        out.append((fs, rr, node2))
+        return out
+    for facts, ret, node2 in dispatch_cases():
+        pc2 = tuple((f, True) for f in facts)
         ctx.count("dispatch_returns")
         mk = mg = ty = False
         tyv = None
@@ -332,9 +351,8 @@ def run(ctx):
     # ---- C05.f every payload _process_packet hands out for a header-valid packet went through the tag comparison.
     # The type nibble is itself unauthenticated at this point, so an accepted type that is returned *without* the tag check is
     # reachable from an encrypted response by altering header bits (3 -> 1 is a single-bit flip).
-    for pc2, ret, node2, _st in ps.returns:
-        if node2 is None:
-            continue
+    for facts, ret, node2 in dispatch_cases():
+        pc2 = tuple((f, True) for f in facts)
         verified = ret[0] == "call" and ret[1] == ("func", DEC)
         # ... or the unauthenticated type is accepted only while a handshake request is outstanding (flag discipline checked below)
         flag_attrs = {strip(a)[2] for a in atoms(pc2) if strip(a)[0] == "attr" and strip(a)[1] == ("param", pr.params[0])}
